@@ -1,6 +1,7 @@
 import TsProofs.Chunk
 import TsProofs.Slab
 import TsProofs.BatchRead
+import TsProofs.Properties.C08
 /-!
 # C16 — Chunking, subdivision, batching and tiling never change logical content
 
@@ -442,6 +443,21 @@ theorem C16_plan_roundtrip {α : Type} [DecidableEq α] (wb : List (WReq α × B
     obtain ⟨hd, hwant⟩ := plan_domain wb thr hthr hpaths hsz sel hsel hpos rr hrr
     obtain ⟨ds, h1, h2⟩ := exec_merge _ rr hd
     exact ⟨ds, _, h1, execPlain_want _ rr hd.1, h2.trans hwant, hwant⟩
+
+/-- **Shard subdivision** (`subdivide_shard`, shared with C08): for every shard of positive sizes (any rank),
+every `dim`, element size ≥ 1 and max-shard-size ≥ 1 the sub-shards are non-empty, change only dimension `dim`,
+and exactly partition the shard (cover iff, pairwise disjoint). Re-export of `C08_subdivide_partition`. -/
+theorem C16_subdivide_partition (elemSize : Nat) (b : Ts.Shard.Box) (dim : Nat) (maxShardSzBytes : Int)
+    (hwf : b.WF) (hdim : dim < b.rank) (hpos : Ts.Shard.allPos b.sizes)
+    (he : 0 < elemSize) (hm : 0 < maxShardSzBytes) :
+    ∃ subs sz off, Ts.Shard.subdivide elemSize b dim maxShardSzBytes = .ok subs ∧
+      b.sizes[dim]? = some sz ∧ b.offsets[dim]? = some off ∧ subs ≠ [] ∧
+      (∀ sub ∈ subs,
+          sub.box = ⟨b.offsets.set dim (off + sub.start), b.sizes.set dim sub.len⟩ ∧
+          0 < sub.len ∧ sub.start + sub.len ≤ sz ∧ sub.box.WF ∧ Ts.Shard.allPos sub.box.sizes) ∧
+      (∀ g, b.contains g = true ↔ ∃ sub ∈ subs, sub.box.contains g = true) ∧
+      subs.Pairwise (fun a c => a.box.Disjoint c.box) :=
+  Ts.Shard.C08_subdivide_partition elemSize b dim maxShardSzBytes hwf hdim hpos he hm
 
 /-! ## Non-vacuity: concrete, non-trivial instances of the hypotheses (and what the model computes) -/
 
